@@ -44,6 +44,8 @@ var c13Sources = []string{
 	"find skip 1 'a' maybe 'b'",
 	"set p to pattern {'a' maybe r 'b'} = r 'd'\nfind all p\nfind all maybe p 'd'",
 	"find all at least 1 (('a' = x) or ('b' = y)) named r",
+	"set f to transform set v to 1 set w to true return v * 2 end\nreplace all 'a' with f",
+	"set g to transform return head v + w end\nset p to pattern 'a' begin set k to matchLength return k == 1 end\nreplace all p with g",
 }
 
 var c13Texts = []string{"abab dab", "aabbd abd aab", "bdab\nabba d"}
